@@ -112,6 +112,11 @@ def _set_value_protocol(col: Collector, rule="C01.R1", only=None, order_rule=Non
             okU, facts = False, "a path reaches the write/register with the old definition neither unregistered nor known absent"
     col.add("C03.R2" if only == "C03" else rule, f"{q}#unregister-existing-definition", okU, s.loc(Un[0]) if Un else here,
             "an existing task identified by the assigned ref is unregistered first, exactly when `ref in self.tasks`", facts)
+    # (d'') every normal path that may find an old definition removes it: no exit with the old definition still in place
+    stays = cfg.path_avoiding(cfg.ENTRY, cfg.EXIT, good_u + br_out)
+    col.add("C03.R2" if only == "C03" else rule, f"{q}#every-path-replaces-the-definition", not stays, s.loc(Un[0]) if Un else here,
+            "no normally returning path of set_value leaves an existing definition of the assigned ref registered (an early exit "
+            "before the unregister keeps the old expression alive)", "a path ENTRY->EXIT passes neither unregister(ref) nor a branch where `ref not in self.tasks` is known" if stays else "")
     # (d') a second registration under the same id is reachable only through an unregister
     twice = [(a, b) for a in Rn for b in Rn if cfg.path_avoiding(a, b, good_u) and (a != b or cfg.in_loop(a))]
     col.add("C03.R2" if only == "C03" else rule, f"{q}#no-registration-over-a-live-one", not twice,
